@@ -288,7 +288,7 @@ func funcName(u int) string {
 	} else {
 		p = "std/" + p
 	}
-	return p + "." + fd.name
+	return p + "." + strings.ReplaceAll(fd.name, "*", "")
 }
 
 func unitPos(u int) string {
